@@ -5,5 +5,5 @@ git -C /repo apply --3way "$p" 2>&1 | grep -v "^Applied patch" | head -3
 for c in "$@"; do
   /verif/vcheck $c --no-write 2>&1 | grep -A1 "^VIOLATION\|ANALYSIS-ERROR" | grep -v '^--' | grep -v '^VIOLATION' | cut -c1-420
 done
-git -C /repo reset -q --hard HEAD
+git -C /repo reset -q --hard HEAD; find /repo/src -name "*.orig" -delete
 git -C /repo status --short | grep -v '^??' | head -3
